@@ -144,7 +144,7 @@ func infoFull(info *parse.PkgInfo) J {
 var multiDefRx = regexp.MustCompile(`target has multiple definitions`)
 
 var (
-	multiDefLineRx = regexp.MustCompile(`(?m)^"([^"]*)" target has multiple definitions: (.*)$`)
+	multiDefLineRx = regexp.MustCompile(`(?m)"([^"]*)" target has multiple definitions: (.*)$`)
 	aliasDupRx     = regexp.MustCompile(`alias "([^"]*)" duplicates existing target\(s\): (.*)`)
 	caseLineRx     = regexp.MustCompile(`(?m)^  (\S.*)$`)
 )
